@@ -714,7 +714,7 @@ def ot_leaves(obj, path, out, tag):
         out.append((path, "I", freeze(obj), 0))
 
 
-def _attr_leaves(t, dattrs, derived=(), derived_h=1, skip=()):
+def _attr_leaves(t, dattrs, derived=(), derived_h=1, skip=(), derived_kind="D"):
     out = []
     for k in sorted(vars(t)):
         if k.startswith("_") or k in skip or k == "tableTag":
@@ -723,7 +723,7 @@ def _attr_leaves(t, dattrs, derived=(), derived_h=1, skip=()):
         if k in dattrs:
             out.append(((k,), "D", v, 1))
         elif k in derived:
-            out.append(((k,), "D", v, derived_h))
+            out.append(((k,), derived_kind, v, derived_h))
         else:
             out.append(((k,), "I", freeze(v), 0))
     return out
@@ -743,14 +743,21 @@ def _comp_depth(glyf, n, memo):
 
 def _pen_leaves(font, names, relative, out, hmul=1, location=None, key="pen"):
     """Outline through the pen API.  relative=True: every coordinate is the sum of that many stored
-    deltas (charstrings), so point j (1-based over the whole glyph) has bound hmul*j/2."""
+    deltas (charstrings), so point j (1-based over the whole glyph) has bound hmul*j/2.
+    TrueType glyphs are drawn from the glyf record itself (offset 0): the glyph set would add
+    lsb - xMin to every x, i.e. report a sum of three separately rounded numbers."""
     gs = font.getGlyphSet(location=location) if location else font.getGlyphSet()
+    raw_glyf = font["glyf"] if ("glyf" in font and not relative and not location) else None
+    varc = set(font["VARC"].table.Coverage.glyphs) if "VARC" in font else set()
     maxn = 1
     nonint = 0
     for n in names:
         pen = RecordingPen()
         try:
-            gs[n].draw(pen)
+            if raw_glyf is not None and n not in varc:
+                raw_glyf[n].draw(pen, raw_glyf, 0)
+            else:
+                gs[n].draw(pen)
         except Exception as e:
             out.append(((key, n), "I", ("draw-error", type(e).__name__), 0))
             continue
@@ -805,6 +812,7 @@ def _pen_leaves(font, names, relative, out, hmul=1, location=None, key="pen"):
     return maxn, nonint
 
 
+CFF_DEFAULT_FONTMATRIX = (0.001, 0, 0, 0.001, 0, 0)
 HINT_OPS = {"hstem", "vstem", "hstemhm", "vstemhm", "hintmask", "cntrmask"}
 
 
@@ -866,10 +874,14 @@ def scale_views(font, data, glyph_names=None):
                             out.append(((tag, n, "width"), "D", int(w), 2))
                     except Exception:
                         pass
-            fm = getattr(top, "FontMatrix", None)
-            if fm is not None:
-                upem = font["head"].unitsPerEm
-                out.append(((tag, "FontMatrix*upem"), "M", tuple(round(x * upem * 1000000) for x in fm[:4]), 0))
+            # FontMatrix as the FILE states it: the stored operands, else the default of the CFF specification
+            # (Technical Note #5176, table 9) -- not the library's default object
+            fm = top.rawDict.get("FontMatrix", CFF_DEFAULT_FONTMATRIX)
+            upem = font["head"].unitsPerEm
+            out.append(((tag, "FontMatrix*upem"), "M", tuple(round(x * upem * 1000000) for x in fm[:4]), 0))
+            for fi, fd in enumerate(getattr(top, "FDArray", None) or []):
+                if "FontMatrix" in fd.rawDict:
+                    out.append(((tag, "FD", fi, "FontMatrix"), "I", freeze(fd.rawDict["FontMatrix"]), 0))
             for k in ("ROS", "CIDCount", "PaintType", "CharstringType", "isFixedPitch", "ItalicAngle"):
                 if hasattr(top, k):
                     out.append(((tag, k), "I", freeze(getattr(top, k)), 0))
@@ -888,8 +900,11 @@ def scale_views(font, data, glyph_names=None):
                 info["skipped"].append("CFF2 corner outline: %s" % type(e).__name__)
     bb = maxn if is_cff else 1 + depth + (1 if transformed else 0)
     if "head" in font:
-        V["head"] = _attr_leaves(font["head"], (), derived=HEAD_D, derived_h=(1 if is_cff else bb),
-                                 skip=("checkSumAdjustment", "modified", "unitsPerEm", "indexToLocFormat"))
+        # CFF: head's box is recomputed on save from the charstrings as intRect(real extremum of the curves): kind "E"
+        # (floor/ceil of a real number that is itself within maxn/2 of the scaled one; see build_scale_trace)
+        V["head"] = _attr_leaves(font["head"], (), derived=HEAD_D, derived_h=(maxn + 2 if is_cff else bb),
+                                 skip=("checkSumAdjustment", "modified", "unitsPerEm", "indexToLocFormat"),
+                                 derived_kind="E" if is_cff else "D")
     for tag in ("hhea", "vhea"):
         if tag in font:
             V[tag] = _attr_leaves(font[tag], HHEA_D, derived=HHEA_DERIVED, derived_h=2 + 2 * bb, skip=("numberOfHMetrics", "numberOfVMetrics"))
